@@ -180,6 +180,9 @@ func c37Stream(d *deduplicator, fn string, evs []c37Event, k int, stamps bool) (
 					// race pass: monotonic clock, no synchronisation, evidence only
 					myCall[j] = int64(time.Since(t0))
 				}
+				if (g+j)%5 == 1 {
+					runtime.Gosched() // inside the stamped interval
+				}
 				myRes[j] = c37Call(d, fn, &args[j])
 				if stamps {
 					myRet[j] = atomic.AddInt64(&clock, 1)
@@ -213,7 +216,7 @@ func c37Stream(d *deduplicator, fn string, evs []c37Event, k int, stamps bool) (
 }
 
 func c37Concurrent(r *verifkit.Run, stamps bool, streamsPerFn, perStream int) {
-	ks := []int{2, 4, 16, 16}
+	ks := []int{16, 4, 2, 16}
 	for _, fn := range []string{c37FnStarted, c37FnSubmitted, c37FnClosed} {
 		d := newDeduplicator()
 		used := map[string]bool{}
@@ -261,15 +264,15 @@ func c37Concurrent(r *verifkit.Run, stamps bool, streamsPerFn, perStream int) {
 func TestVerif_C37_TbtcConcurrent(t *testing.T) {
 	r := verifkit.Start(t, "C37", "tbtc-concurrent")
 	defer r.Finish()
-	r.SetRule("per notify function: streams of 2000 fresh PRNG events, each stream delivered in order by k in {2,4,16,16} goroutines (parallel handlers) that start together on one deduplicator; per event exactly one delivery must return true, a later redelivery false. One case = one event; non-trivial = two of its deliveries overlapped in the observed call/return stamps")
+	r.SetRule("per notify function: streams of 2000 fresh PRNG events, each stream delivered in order by k in {16,4,2,16} goroutines (parallel handlers) that start together on one deduplicator; per event exactly one delivery must return true, a later redelivery false. One case = one event; non-trivial = two of its deliveries overlapped in the observed call/return stamps")
 	c37Concurrent(r, true, r.N(12, 400), 2000)
 }
 
 func TestVerif_C37_TbtcConcurrentRace(t *testing.T) {
 	r := verifkit.Start(t, "C37", "tbtc-concurrent-race")
 	defer r.Finish()
-	r.SetRule("the concurrent streams under the Go race detector, results in per-goroutine slots, start barrier only. non-trivial = two deliveries of the event overlapped according to the monotonic clock (evidence only)")
-	c37Concurrent(r, false, r.N(8, 200), 2000)
+	r.SetRule("the concurrent streams (1000 events each) under the Go race detector, results in per-goroutine slots, start barrier only. non-trivial = two deliveries of the event overlapped according to the monotonic clock (evidence only)")
+	c37Concurrent(r, false, r.N(3, 200), 1000)
 }
 
 // ---------------------------------------------------------------------------
